@@ -396,6 +396,11 @@ class Group:
             failed = qc.failed_prs
         except RecursionError:
             return 'ERR:Recursion/ERR:Recursion/ERR:Recursion'
+        except (AttributeError, KeyError, IndexError, TypeError):
+            raise                      # shapes the harness itself may have got wrong: fail loudly
+        except Exception as exc:       # the evaluation itself refuses (e.g. the collection is judged incoherent)
+            w = 'ERR:' + type(exc).__name__
+            return '%s/%s/%s' % (w, w, w)
         return '%s/%s/%s' % (','.join(map(str, prs)), ','.join(mv), ','.join(map(str, failed)))
 
 
@@ -464,7 +469,12 @@ def _check_one(g, statuses, force, answer, res, kind):
         if len(res['mismatch']) < 5:
             res['mismatch'].append((_case_input(g, statuses, force), t, m, '_process/' + kind))
         res['n_mismatch'] += 1
-    if g.validated and t.rsplit('/', 1)[0] != s:
+    bad = g.validated and t.rsplit('/', 1)[0] != s
+    if not g.validated and getattr(g, 'model_wf', False) and s.split('/')[0]:
+        # the collection is well formed (built by add_to_queue's rules) and the specification selects a prefix, but
+        # the real class refuses the collection: nothing is merged although a green prefix exists
+        bad = True
+    if bad:
         if len(res['violation']) < 40:
             res['violation'].append((_case_input(g, statuses, force), s, t.rsplit('/', 1)[0]))
         res['n_violation'] += 1
@@ -506,6 +516,7 @@ def _run_chunk(args):
         ai += 1
         shape, queued, wf, body = ans.split('#')
         res['wf'] += wf == '1'
+        g.model_wf = wf == '1'
         if not g.validated or wf != '1':
             res['mismatch'].append((g.key, 'validate=%s %s' % (g.validated, getattr(g, 'validate_error', '')),
                                     'wf_b=' + wf, 'generator (not a finding)'))
@@ -593,6 +604,7 @@ def run_single(ctx, inp, tag=''):
     line = g.request('one', int(bool(inp.get('force'))),
                      ','.join('%d=%s' % (c, s) for c, s in enumerate(st)) or '-')
     shape, queued, wf, a = ctx.model.batch([line])[0].split('#')
+    g.model_wf = wf == '1'
     res = {'evals': 0, 'mismatch': [], 'violation': [], 'n_mismatch': 0, 'n_violation': 0}
     t = _check_one(g, st, bool(inp.get('force')), a, res, 'single' + tag)
     ctx.evaluations += 1
